@@ -116,6 +116,36 @@ def rule_first(ctx: Ctx) -> RuleResult:
         res.violation(["spil.sid.core.sid_resolver.sid_to_dict", "untyped pair"], "sid_to_dict can return a type with empty data, or no longer "
                                                                                   "answers (None, None) for an unresolved string", f.relpath, f.node.lineno)
 
+    # (a') the fields direction: dict_to_sid formats with the given type when there is one, else with the first fitting
+    # template; dict_to_type answers the first fitting type (configuration order) unless all are asked for
+    from ..shape import facts_at as _fa
+
+    d2s = p.function("spil.sid.core.sid_resolver.dict_to_sid")
+    tp = d2s.params[1] if len(d2s.params) > 1 else "_type"
+    for n in own_nodes(d2s.node):
+        if isinstance(n, ast.Call) and isinstance(n.func, ast.Attribute) and n.func.attr in ("format_one", "format_first"):
+            fs = _fa(ctx, d2s, n)
+            want = n.func.attr == "format_one"
+            if (tp, want) in fs and (n.func.attr == "format_first" or (len(n.args) == 2 and norm(n.args[1]) == tp)):
+                res.ok(f"dict_to_sid: `{norm(n)}`", f"under `{tp}` {'given' if want else 'not given'}")
+            else:
+                res.violation([d2s.qualname, n.func.attr, "dispatch"], f"dict_to_sid: `{norm(n)}` is not on the `{tp}` "
+                                                                       f"{'given' if want else 'not given'} side: a forced type is ignored or a missing "
+                                                                       f"one is used", d2s.relpath, n.lineno)
+    d2t = p.function("spil.sid.core.sid_resolver.dict_to_type")
+    allp = d2t.params[1] if len(d2t.params) > 1 else "all"
+    firsts = 0
+    for r_ in [n for n in own_nodes(d2t.node) if isinstance(n, ast.Return) and n.value is not None]:
+        v_ = r_.value
+        if isinstance(v_, ast.Subscript):
+            firsts += 1
+            idx_ok = norm(v_.slice) == "0"
+            if idx_ok and (allp, True) not in _fa(ctx, d2t, r_):
+                res.ok(f"dict_to_type: `{norm(r_)}`", "the first fitting type, in configuration order")
+            else:
+                res.violation([d2t.qualname, norm(r_), "not the first type"], f"dict_to_type: `{norm(r_)}` is not the first fitting type when a single "
+                                                                            f"one is asked for", d2t.relpath, r_.lineno)
+    res.floor(firsts, 1, "single-type returns of dict_to_type")
     # (b) sid_to_sid: the uri branch forces the prefix type, the plain branch passes no type
     g = p.function("spil.sid.core.sid_factory.sid_to_sid")
     gflow = flow_of(g.node)
